@@ -614,6 +614,13 @@ fn make_probes_reduced(seed: u64, reqs: &[Req], positions_full: &[usize], multi_
 
 /// Trace all probes, `workers` worker processes in parallel (each a fork of this warmed, single-threaded process).
 fn trace_all(seed: u64, reqs: &[Req], probes: &[Probe], workers: usize) -> Vec<Trace> {
+    trace_all_after(seed, reqs, probes, workers, 0)
+}
+
+/// `burst` > 0: after the warm-up the process refuses that many wrong signatures in a row with no accepted request in
+/// between — the traffic of somebody guessing a signature digit by digit — before the probe children are forked, so that
+/// they inherit whatever state such a history leaves behind.
+fn trace_all_after(seed: u64, reqs: &[Req], probes: &[Probe], workers: usize, burst: usize) -> Vec<Trace> {
     // warm every lazily initialised global with full validations (success and refusal)
     for (k, q) in reqs.iter().enumerate() {
         log::set_max_level(log::LevelFilter::Trace);
@@ -624,6 +631,19 @@ fn trace_all(seed: u64, reqs: &[Req], probes: &[Probe], workers: usize) -> Vec<T
         let bad = sv::exec::execute(&case_with_sig(q, seed, k, &"0".repeat(64)));
         if !ok.outcome.is_ok() || bad.outcome.is_ok() {
             eprintln!("warm-up: unexpected outcomes {} / {}", ok.outcome.brief(), bad.outcome.brief());
+        }
+    }
+    if burst > 0 {
+        let mut br = Rng::keyed(seed, "C07", "burst", 0, 0);
+        for n in 0..burst {
+            let q = &reqs[n % reqs.len()];
+            let mut guess = q.sig.clone().into_bytes();
+            let p = br.usize_below(64);
+            guess[p] = same_class_other(&mut br, guess[p]);
+            let refused = sv::exec::execute(&case_with_sig(q, seed, n % reqs.len(), &String::from_utf8(guess).unwrap()));
+            if refused.outcome.is_ok() {
+                eprintln!("burst: a wrong signature was accepted");
+            }
         }
     }
     let cases: Vec<Case> = probes.iter().map(|p| case_for_probe(&reqs[p.request], seed, p.request, p)).collect();
@@ -941,6 +961,19 @@ fn main() {
     } else {
         tally.count("premise_checked_probes_differ_in_signature_characters_only");
     }
+    // the plain group of the first request once more in a process that has just refused 40 wrong signatures in a row
+    {
+        let probes_b: Vec<Probe> = probes.iter().filter(|p| p.request == 0 && p.group == "lower" && !p.log_trace).cloned().collect();
+        let traces_b = trace_all_after(seed, &reqs[..1], &probes_b, ctx.threads.max(1), 40);
+        let sb = analyse(&reqs[..1], &probes_b, &traces_b, "release, after a burst of 40 refusals");
+        tally.add("wrong_signature_traces_compared_after_a_burst_of_refusals", sb.tally.get("wrong_signature_traces_compared"));
+        for v in sb.tally.violations {
+            tally.violate(v);
+        }
+        for m in sb.tally.inconclusive {
+            tally.inconclusive.push(m);
+        }
+    }
     // thorough: repeat a subset on the `checked` build profile
     let mut extra = J::obj();
     if let Ok(other) = std::env::var("VERIF_C07_EXTRA") {
@@ -1041,6 +1074,7 @@ fn main() {
     let thin = nreq - full;
     ctx.gate("wrong-signature traces compared", tally.get("wrong_signature_traces_compared"), (full * (positions.len() + 1 + multi) + thin * 4) as u64);
     ctx.gate("wrong-signature traces compared with the guess in a non-selected copy (later X-Amz-Signature parameter, second Authorization header)", tally.get("wrong_signature_traces_compared_in_a_non_selected_copy"), (reqs.len() * 3) as u64);
+    ctx.gate("wrong-signature traces compared in a process that had just refused 40 wrong signatures in a row", tally.get("wrong_signature_traces_compared_after_a_burst_of_refusals"), (positions.len() + 1) as u64);
     ctx.gate("wrong-signature traces compared with a non-hexadecimal letter (g, x, z) at a letter position near the start / middle / end", tally.get("wrong_signature_traces_compared_with_a_non_hex_letter"), (reqs.len() * 3) as u64);
     ctx.gate("wrong-signature traces compared in upper case / with one upper-case letter", tally.get("wrong_signature_traces_compared_in_other_hex_case"), (full * positions.len() * 2) as u64);
     ctx.gate("wrong-signature traces compared with a trace-level logger installed", tally.get("wrong_signature_traces_compared_with_trace_logging"), (full * (positions.len() + 1)) as u64);
@@ -1053,7 +1087,7 @@ fn main() {
     ctx.exhaustive("first-difference positions 0–63 for each traced request", tier == Tier::Thorough);
     let rep = Report {
         level: "exploration",
-        rule: "Instruction-trace monitor: the process warms all lazily initialised globals, then forks one child per probe; the child builds its request, raises SIGSTOP, performs the single validation call, raises SIGSTOP again; the parent single-steps the child between the two stops with ptrace and folds every instruction address into (step count, 64-bit FNV hash). All children are forks of one warmed single-threaded parent (same layout, allocator state, hash seeds); request shapes: both carriers, canonical spelling and other clients' spellings (letter case, needless escapes, parameter order; timestamps with a local offset or in the extended format with a fraction), with and without a session token (temporary-credential access keys), S3 mode, folded form POST, both options, services with signed-header requirements, a skewed server clock and a richer provider identity on every other request, two keys; probes differ only in the signature text: first wrong character at each probed position (digit for digit, letter for letter), all characters wrong, random multi-position variants; every position probe is repeated with a trace-level logger installed (log-macro arguments are then evaluated), with the whole signature in upper case, and with one far-away letter in upper case; positions 0 / 31 / 63 once more with the guess in a copy of the signature that is not the selected one (a later X-Amz-Signature parameter, a second Authorization header) while the selected copy is wrong throughout; and three letter positions with a letter that is not a hexadecimal digit (g, x, z). Verdict: identical (count, hash) for all refusals of one request within each of these six groups. The plain group (5 positions, all-wrong, 3 multi-position variants) is traced again on an unoptimised build of crate and harness (profile `unopt`, opt-level 0; ≈ 770 000 steps per trace), where a data-dependent branch in the source cannot be turned into branch-free code by the optimiser; thorough also repeats a subset on the `checked` profile. Every wrong-signature probe must end refused and the correct signature accepted (child exit status), else the run is inconclusive. Controls: same probe twice ⇒ same trace; a harness-local `==` over the same inputs must show position-dependent lengths (proves the byte-wise memcmp/bcmp override is effective). Distinct = distinct (request, wrong signature) traces compared.".into(),
+        rule: "Instruction-trace monitor: the process warms all lazily initialised globals, then forks one child per probe; the child builds its request, raises SIGSTOP, performs the single validation call, raises SIGSTOP again; the parent single-steps the child between the two stops with ptrace and folds every instruction address into (step count, 64-bit FNV hash). All children are forks of one warmed single-threaded parent (same layout, allocator state, hash seeds); request shapes: both carriers, canonical spelling and other clients' spellings (letter case, needless escapes, parameter order; timestamps with a local offset or in the extended format with a fraction), with and without a session token (temporary-credential access keys), S3 mode, folded form POST, both options, services with signed-header requirements, a skewed server clock and a richer provider identity on every other request, two keys; probes differ only in the signature text: first wrong character at each probed position (digit for digit, letter for letter), all characters wrong, random multi-position variants; every position probe is repeated with a trace-level logger installed (log-macro arguments are then evaluated), with the whole signature in upper case, and with one far-away letter in upper case; positions 0 / 31 / 63 once more with the guess in a copy of the signature that is not the selected one (a later X-Amz-Signature parameter, a second Authorization header) while the selected copy is wrong throughout; and three letter positions with a letter that is not a hexadecimal digit (g, x, z); the plain group of the first request is traced once more in children forked from a process that has just refused 40 wrong signatures in a row without an accepted request in between. Verdict: identical (count, hash) for all refusals of one request within each of these six groups. The plain group (5 positions, all-wrong, 3 multi-position variants) is traced again on an unoptimised build of crate and harness (profile `unopt`, opt-level 0; ≈ 770 000 steps per trace), where a data-dependent branch in the source cannot be turned into branch-free code by the optimiser; thorough also repeats a subset on the `checked` profile. Every wrong-signature probe must end refused and the correct signature accepted (child exit status), else the run is inconclusive. Controls: same probe twice ⇒ same trace; a harness-local `==` over the same inputs must show position-dependent lengths (proves the byte-wise memcmp/bcmp override is effective). Distinct = distinct (request, wrong signature) traces compared.".into(),
         assumptions: vec![
             "decides the property as stated (instruction sequence), not micro-architectural timing".into(),
             "the success path (correct signature) is traced but excluded from the comparison".into(),
